@@ -301,10 +301,6 @@ def keysH (held : List (Nat × Bytes × Nat)) : List (Nat × Bytes) := held.map 
 /-- the abstract store of the trie and the specification's `held` list name the same (callback, filter) pairs -/
 def HeldRel (store : List Sub) (held : List (Nat × Bytes × Nat)) : Prop := ∀ k, k ∈ keysS store ↔ k ∈ keysH held
 
-/-- E9 exclusion at dispatch time: no callback is held under two different filters that both match the topic -/
-def E9free (held : List (Nat × Bytes × Nat)) (t : Bytes) : Bool :=
-  decide ((((held.filter (fun h => topicMatches h.2.1 t)).map (fun h => (h.1, h.2.1))).eraseDups.map (·.1)).Nodup)
-
 theorem nodup_eraseDups_aux {α} [BEq α] [LawfulBEq α] : ∀ (n : Nat) (l : List α), l.length ≤ n → l.eraseDups.Nodup := by
   intro n
   induction n with
@@ -329,53 +325,39 @@ theorem nodup_eraseDups_aux {α} [BEq α] [LawfulBEq α] : ∀ (n : Nat) (l : Li
 theorem nodup_eraseDups {α} [BEq α] [LawfulBEq α] (l : List α) : l.eraseDups.Nodup :=
   nodup_eraseDups_aux l.length l (Nat.le_refl _)
 
-/-- an inbound message: the model invokes the callbacks the specification prescribes -/
+/-- an inbound message: the model invokes the callbacks the specification prescribes - every
+callback (request) with at least one matching held filter exactly once, however many of its
+filters match -/
 theorem dispatch_match (c : C) (s : S) (store : List Sub) (hti : TI c.topics store) (hr : HeldRel store s.held)
-    (p : Pub) (hg : good p.topic = true) (hn : validName p.topic = true) (hq : p.qos ≤ 2)
-    (he : E9free s.held p.topic = true) : EvMatch (dispatch s p) (onPublish c p) := by
+    (p : Pub) (hg : good p.topic = true) (hn : validName p.topic = true) (hq : p.qos ≤ 2) :
+    EvMatch (dispatch s p) (onPublish c p) := by
   obtain ⟨r, hr1, hr2⟩ := onPublish_perm c store hti p hg hn hq
   rw [hr1]
   unfold dispatch
   apply EvMatch.deliveries
-  have hA : (r.map (·.1)).Perm ((store.filter (fun e => topicMatches e.filter p.topic)).map (·.sub)) := by
-    have := hr2.map (·.1)
-    simpa [specAnswer, List.map_map, Function.comp_def] using this
-  refine List.Perm.trans ?_ hA.symm
-  -- A : the matching (callback, filter) pairs of the store; K : those of `held`, duplicates erased
-  let m : Nat × Bytes → Bool := fun k => topicMatches k.2 p.topic
-  have hAn : ((store.filter (fun e => topicMatches e.filter p.topic)).map (fun e => (e.sub, e.filter))).Nodup :=
-    hti.nodup.sublist ((List.filter_sublist).map _)
-  have hKn := nodup_eraseDups ((s.held.filter (fun h => topicMatches h.2.1 p.topic)).map (fun h => (h.1, h.2.1)))
-  have hmem : ∀ k, k ∈ (store.filter (fun e => topicMatches e.filter p.topic)).map (fun e => (e.sub, e.filter)) ↔
-      k ∈ ((s.held.filter (fun h => topicMatches h.2.1 p.topic)).map (fun h => (h.1, h.2.1))).eraseDups := by
-    intro k
-    rw [List.mem_eraseDups]
-    have h1 : k ∈ (store.filter (fun e => topicMatches e.filter p.topic)).map (fun e => (e.sub, e.filter)) ↔
-        k ∈ keysS store ∧ topicMatches k.2 p.topic = true := by
-      simp only [keysS, List.mem_map, List.mem_filter]
-      constructor
-      · rintro ⟨e, ⟨he1, he2⟩, rfl⟩; exact ⟨⟨e, he1, rfl⟩, he2⟩
-      · rintro ⟨⟨e, he1, rfl⟩, he2⟩; exact ⟨e, ⟨he1, he2⟩, rfl⟩
-    have h2 : k ∈ (s.held.filter (fun h => topicMatches h.2.1 p.topic)).map (fun h => (h.1, h.2.1)) ↔
-        k ∈ keysH s.held ∧ topicMatches k.2 p.topic = true := by
-      simp only [keysH, List.mem_map, List.mem_filter]
-      constructor
-      · rintro ⟨e, ⟨he1, he2⟩, rfl⟩; exact ⟨⟨e, he1, rfl⟩, he2⟩
-      · rintro ⟨⟨e, he1, rfl⟩, he2⟩; exact ⟨e, ⟨he1, he2⟩, rfl⟩
-    rw [h1, h2, hr k]
-  have hAK := (List.perm_ext_iff_of_nodup hAn hKn).mpr hmem
-  have hAK1 := hAK.map (·.1)
-  simp only [List.map_map, Function.comp_def] at hAK1
-  refine List.Perm.trans ?_ hAK1.symm
-  have hE : ((((s.held.filter (fun h => topicMatches h.2.1 p.topic)).map (fun h => (h.1, h.2.1))).eraseDups).map (·.1)).Nodup := by
-    simpa [E9free] using he
-  refine (List.perm_ext_iff_of_nodup (nodup_eraseDups _) hE).mpr ?_
+  refine (List.perm_ext_iff_of_nodup (nodup_eraseDups _) (firstPerCb_nodup r [])).mpr ?_
   intro cb
-  rw [List.mem_eraseDups]
-  simp only [List.mem_map, List.mem_eraseDups, List.mem_filter]
+  rw [List.mem_eraseDups, mem_firstPerCb_cb]
+  simp only [List.not_mem_nil, not_false_eq_true, and_true, List.mem_map, List.mem_filter]
   constructor
-  · rintro ⟨h, hh, rfl⟩; exact ⟨(h.1, h.2.1), ⟨h, hh, rfl⟩, rfl⟩
-  · rintro ⟨k, ⟨h, hh, rfl⟩, rfl⟩; exact ⟨h, hh, rfl⟩
+  · rintro ⟨h, ⟨hh, hm⟩, rfl⟩
+    have hk : (h.1, h.2.1) ∈ keysS store := (hr _).mpr (List.mem_map.mpr ⟨h, hh, rfl⟩)
+    obtain ⟨e, he, hek⟩ := List.mem_map.mp hk
+    have hes : e.sub = h.1 := congrArg (·.1) hek
+    have hef : e.filter = h.2.1 := congrArg (·.2) hek
+    have : (e.sub, min p.qos e.qos) ∈ specAnswer store p.topic p.qos := by
+      simp only [specAnswer, List.mem_map, List.mem_filter]
+      exact ⟨e, ⟨he, by rw [hef]; exact hm⟩, rfl⟩
+    exact ⟨_, hr2.symm.subset this, hes⟩
+  · rintro ⟨x, hx, rfl⟩
+    have := hr2.subset hx
+    simp only [specAnswer, List.mem_map, List.mem_filter] at this
+    obtain ⟨e, ⟨he, hm⟩, rfl⟩ := this
+    have hk : (e.sub, e.filter) ∈ keysH s.held := (hr _).mp (List.mem_map.mpr ⟨e, he, rfl⟩)
+    obtain ⟨h, hh, hhk⟩ := List.mem_map.mp hk
+    have h1 : h.1 = e.sub := congrArg (·.1) hhk
+    have h2 : h.2.1 = e.filter := congrArg (·.2) hhk
+    exact ⟨h, ⟨hh, by rw [h2]; exact hm⟩, h1⟩
 
 /-! ### SUBACK: the Subscribe wrappers against the specification's `held` update -/
 
@@ -682,8 +664,7 @@ theorem R_init : R init {} :=
     ⟨fun r hr => (by cases hr), fun r hr => (by cases hr), fun r hr => (by cases hr)⟩⟩
 
 /-- the events the refinement theorem admits, decided on the *specification's* state: exactly the
-recorded exclusions (E5 early acknowledgement; E9 a callback held
-under two filters matching the delivered topic; B3 `good`; caller-supplied non-zero identifiers) and
+recorded exclusions (E5 early acknowledgement; B3 `good`; caller-supplied non-zero identifiers) and
 the peer keeping to the protocol where the property is silent (valid topic names and QoS in inbound
 PUBLISHes, SUBACK return codes 0/1/2/0x80, no PUBREC after the PUBCOMP of the same exchange, subscribed
 filters valid and pairwise different within a request). -/
@@ -697,11 +678,7 @@ def okStep (s : S) : Ev → Bool
   | .api (.unsubscribe id topics _) => id != 0 && topics.all (fun t => good t)
   | .api (.ping _) => true
   | .peer (.publish pb) =>
-    good pb.topic && validName pb.topic && decide (pb.qos ≤ 2) && (pb.qos == 2 || E9free s.held pb.topic)
-  | .peer (.pubrel id) =>
-    (release (markDone s.open2 id)).2.all (fun r => match r.pub with
-      | some pb => E9free s.held pb.topic
-      | none => true)
+    good pb.topic && validName pb.topic && decide (pb.qos ≤ 2)
   | .peer (.pubrec id) => s.pubs2.all (fun r => r.id != id || !r.done)
   | .peer (.suback _ codes) => codes.all okCode
   | .peer _ => true
@@ -881,7 +858,7 @@ theorem sim_api (c : C) (s : S) (hR : R c s) (hc : c.connected = true) (call : A
 
 theorem pubrel_match (c : C) (s : S) (store : List Sub) (hti : TI c.topics store) (hr : HeldRel store s.held)
     (rel : Queue) : ∀ srel : List SReq, Rel Pin rel srel →
-    (∀ r ∈ srel, ∀ pb, r.pub = some pb → okPub pb ∧ E9free s.held pb.topic = true) →
+    (∀ r ∈ srel, ∀ pb, r.pub = some pb → okPub pb) →
     EvMatch (srel.flatMap (fun r => match r.pub with | some pb => dispatch s pb | none => []))
       (rel.flatMap (fun r => match r.pub with | some pb => onPublish c pb | none => [])) := by
   induction rel with
@@ -903,14 +880,14 @@ theorem pubrel_match (c : C) (s : S) (store : List Sub) (hti : TI c.topics store
       cases hpb : e'.pub with
       | none => exact EvMatch.nil
       | some pb =>
-        obtain ⟨⟨hg, hn, hq⟩, he⟩ := hok e' (by simp) pb hpb
-        exact dispatch_match c s store hti hr pb hg hn hq he
+        obtain ⟨hg, hn, hq⟩ := hok e' (by simp) pb hpb
+        exact dispatch_match c s store hti hr pb hg hn hq
 
 theorem sim_peer_publish (c : C) (s : S) (hR : R c s) (pb : Pub) (hok : okStep s (.peer (.publish pb)) = true) :
     R (peer c (.publish pb)).1 (Mqtt.Spec.Client.peer s (.publish pb)).1 ∧
     EvMatch (Mqtt.Spec.Client.peer s (.publish pb)).2 (peer c (.publish pb)).2 := by
-  simp only [okStep, Bool.and_eq_true, decide_eq_true_eq, Bool.or_eq_true, beq_iff_eq] at hok
-  obtain ⟨⟨⟨hg, hn⟩, hq⟩, he⟩ := hok
+  simp only [okStep, Bool.and_eq_true, decide_eq_true_eq] at hok
+  obtain ⟨⟨hg, hn⟩, hq⟩ := hok
   obtain ⟨store, hti, hr⟩ := hR.trie
   by_cases h2 : pb.qos = 2
   · have hb2 : (pb.qos == 2) = true := by simpa using h2
@@ -926,11 +903,7 @@ theorem sim_peer_publish (c : C) (s : S) (hR : R c s) (pb : Pub) (hok : okStep s
         subst hpb'
         exact ⟨hg, hn, hq⟩
   · have hb2 : (pb.qos == 2) = false := by simpa using h2
-    have he' : E9free s.held pb.topic = true := by
-      rcases he with h | h
-      · exact absurd h h2
-      · exact h
-    have hd := dispatch_match c s store hti hr pb hg hn hq he'
+    have hd := dispatch_match c s store hti hr pb hg hn hq
     by_cases h1 : pb.qos = 1
     · have hb1 : (pb.qos == 1) = true := by simpa using h1
       simp only [peer, Mqtt.Spec.Client.peer, hb2, hb1, Bool.false_eq_true, ↓reduceIte]
@@ -939,10 +912,9 @@ theorem sim_peer_publish (c : C) (s : S) (hR : R c s) (pb : Pub) (hok : okStep s
       simp only [peer, Mqtt.Spec.Client.peer, hb2, hb1, Bool.false_eq_true, ↓reduceIte]
       exact ⟨hR, hd⟩
 
-theorem sim_peer_pubrel (c : C) (s : S) (hR : R c s) (id : Nat) (hok : okStep s (.peer (.pubrel id)) = true) :
+theorem sim_peer_pubrel (c : C) (s : S) (hR : R c s) (id : Nat) :
     R (peer c (.pubrel id)).1 (Mqtt.Spec.Client.peer s (.pubrel id)).1 ∧
     EvMatch (Mqtt.Spec.Client.peer s (.pubrel id)).2 (peer c (.pubrel id)).2 := by
-  simp only [okStep, List.all_eq_true] at hok
   obtain ⟨store, hti, hr⟩ := hR.trie
   have hack := hR.in2.ack tPUBREL id [] terminal_PUBREL
   obtain ⟨hrest, hrel⟩ := hack.acked
@@ -956,13 +928,10 @@ theorem sim_peer_pubrel (c : C) (s : S) (hR : R c s) (id : Nat) (hok : okStep s 
   · refine EvMatch.append ?_ (EvMatch.single _ rfl)
     apply pubrel_match c s store hti hr _ _ hrel
     intro r hr' pb hpb
-    refine ⟨?_, ?_⟩
-    · have h1 := release_snd_subset _ r hr'
-      rcases mem_markDone _ _ _ _ h1 with h | ⟨r0, hr0, rfl⟩
-      · exact hR.good.open2 r h pb hpb
-      · exact hR.good.open2 r0 hr0 pb hpb
-    · have := hok r hr'
-      simpa [hpb] using this
+    have h1 := release_snd_subset _ r hr'
+    rcases mem_markDone _ _ _ _ h1 with h | ⟨r0, hr0, rfl⟩
+    · exact hR.good.open2 r h pb hpb
+    · exact hR.good.open2 r0 hr0 pb hpb
 
 theorem sim_peer_puback (c : C) (s : S) (hR : R c s) (id : Nat) :
     R (peer c (.puback id)).1 (Mqtt.Spec.Client.peer s (.puback id)).1 ∧
@@ -1083,7 +1052,7 @@ theorem sim_peer (c : C) (s : S) (hR : R c s) (p : Packet) (hok : okStep s (.pee
     R (peer c p).1 (Mqtt.Spec.Client.peer s p).1 ∧ EvMatch (Mqtt.Spec.Client.peer s p).2 (peer c p).2 := by
   cases p with
   | publish pb => exact sim_peer_publish c s hR pb hok
-  | pubrel id => exact sim_peer_pubrel c s hR id hok
+  | pubrel id => exact sim_peer_pubrel c s hR id
   | puback id => exact sim_peer_puback c s hR id
   | pubrec id => exact sim_peer_pubrec c s hR id hok
   | pubcomp id => exact sim_peer_pubcomp c s hR id
